@@ -682,7 +682,13 @@ fn execute(prog: &Program) -> String {
     // signal never coexists with a registered waiter); for the manual event only when the flag is
     // finally off (otherwise Ready may simply mean "event is set").
     for (wid, wk) in must_wake {
-        let applies = if prog.manual { !final_flag || !prog.threads.iter().flatten().any(|o| *o == Op::Reset) } else { true };
+        // Manual event with the flag finally ON: the waiter's latest poll returned Pending, so the
+        // flag was off then and some set() raised it afterwards; that set() returned before the
+        // join and owed this registered waiter its release and the wake of its latest waker (the
+        // clause "every wait registered when set returns completes, and its latest waker is
+        // invoked") - also when the program contains a reset.
+        let applies = true;
+        let _ = final_flag;
         if applies && W_WAKE[wk].load(O::SeqCst) == 0 {
             oracle("wake-lost", format!("waiter {wid} was released but the waker of its latest Pending poll was never invoked: {summary}"));
         }
@@ -757,6 +763,9 @@ fn classify(msg: &str) -> String {
 }
 
 fn generate(thorough: bool) -> Vec<Program> {
+    if let Ok(only) = std::env::var("C08_ONLY") {
+        return only.split(';').map(Program::parse).collect();
+    }
     let mut out = Vec::new();
     for manual in [false, true] {
         for embedded in [false, true] {
@@ -827,7 +836,10 @@ fn generate(thorough: bool) -> Vec<Program> {
     if !thorough {
         // Witness programs of findings that only the thorough family reaches: kept in the quick
         // tier so that the finding (and its classification) is re-observed on every change.
-        for name in ["manual:boxed:pre:S,RpP"] {
+        // The "SS,R?" programs: a second set() must still reach a waiter that re-registered (after a
+        // reset) while the first set() was draining the pre-registered one with its lock released
+        // around the wake - the flag/generation bookkeeping at the end of a drain (seeded C08d).
+        for name in ["manual:boxed:pre:S,RpP", "manual:boxed:pre:SS,Rp", "manual:boxed:pre:SS,RP", "manual:embedded:pre:SS,Rp"] {
             if !out.iter().any(|p: &Program| p.name() == name) {
                 out.push(Program::parse(name));
             }
